@@ -429,14 +429,18 @@ def emitAll (cfg : Cfg) (L : Labels) : List Placed → Except Err (List Emitted)
     let es ← emitAll cfg L rest
     .ok ({ addr := p.addr, size := p.size, bytes := bs, muted := p.line.muted, isByte := isByteLine p.line.stmt } :: es)
 
-/-- everything up to (not including) the overlap check: the address-sorted emitted lines -/
-def assembleLines (cfg : Cfg) (files : List (List Stmt)) : Except Err (List Emitted × Labels) := do
+/-- reading + first pass + stable address sort: the placed lines in emission order, final labels -/
+def assemblePlaced (cfg : Cfg) (files : List (List Stmt)) : Except Err (List Placed × Labels) := do
   let L0 ← initLabels cfg
   let zs0 ← initZones cfg.bits cfg.origin cfg.preZones
   let (lines, st) ← readFile cfg files (files.length + 1) 0
     { labels := L0, zones := zs0, used := [], nextLoc := 0, syms := cfg.preSyms }
   let (placed, _, L) ← firstPass cfg lines (st.zones, st.labels)
-  let sorted := sortByAddr (placed ++ predefinedLines cfg)
+  .ok (sortByAddr (placed ++ predefinedLines cfg), L)
+
+/-- everything up to (not including) the overlap check: the address-sorted emitted lines -/
+def assembleLines (cfg : Cfg) (files : List (List Stmt)) : Except Err (List Emitted × Labels) := do
+  let (sorted, L) ← assemblePlaced cfg files
   let es ← emitAll cfg L sorted
   .ok (es, L)
 
